@@ -130,7 +130,7 @@ class SchemaSpec:
         self.subscription = None
         self.behaviours = {}  # (type name, field name) -> behaviour
         self.resolve_type = {}  # abstract name -> "attr" | "fn-type" | "fn-name"
-        self.objrepr = "obj"  # "obj" | "dict"
+        self.objrepr = "obj"  # "obj" | "dict" | "sdict" | "map"
         self.root_default = False
         self.share_fields = False
         # GraphQL argument names handed to resolvers under another keyword
@@ -412,7 +412,7 @@ def gen_schema(st, want_mutation=False, small=False,
                     spec.arg_overrides[(oname, f, a.name)] = alt[a.name]
 
     # -- behaviours, type resolution style -----------------------------------
-    spec.objrepr = ("obj", "dict", "obj", "dict", "map")[
+    spec.objrepr = ("obj", "dict", "obj", "sdict", "map")[
         st.below(5, "objrepr")]
     # root fields served by the library's default resolver from attributes /
     # methods of the root value handed to the entry point
@@ -428,6 +428,18 @@ def gen_schema(st, want_mutation=False, small=False,
             if b == "default" and spec.objrepr == "map" and \
                     spec.fields[f].args:
                 b = "sync"  # key lookup knows nothing of arguments
+            if spec.objrepr == "sdict" and b != "default" and not (
+                    spec.fields[f].args
+                    or spec.is_composite(named(spec.fields[f].type))) and \
+                    st.chance(1, 2, "beh_stored"):
+                b = "default"  # dict-backed applications store their leaves
+            if b == "default" and spec.objrepr == "sdict" and (
+                    spec.fields[f].args
+                    or spec.is_composite(named(spec.fields[f].type))):
+                # a plain dict stores its values: only leaves are stored
+                # (composite values would have to be built eagerly, without
+                # end for recursive types)
+                b = "sync"
             if b == "default" and tname in ("Query", "Mutation",
                                             "Subscription") and not (
                     spec.root_default and tname != "Subscription"):
